@@ -141,7 +141,24 @@ bool ref_store_pow_ok(const std::vector<std::uint8_t>& payload, const std::strin
     return leading_zero_bits(store_pow_digest(payload, name, nonce)) >= difficulty;
 }
 std::uint64_t ref_solve_store_pow(const std::vector<std::uint8_t>& payload, const std::string& name, int difficulty, bool valid) {
-    for (std::uint64_t n = 1;; ++n) if (ref_store_pow_ok(payload, name, n, difficulty) == valid) return n;
+    if (payload.size() < 4096) { for (std::uint64_t n = 1;; ++n) if (ref_store_pow_ok(payload, name, n, difficulty) == valid) return n; }
+    // large payloads: hash the payload once (same digest as store_pow_digest, which stays the single-shot reference)
+    const auto chunk_id = en::crypto::Sha256::digest(std::span<const std::uint8_t>(payload));
+    for (std::uint64_t nonce = 1;; ++nonce) {
+        en::crypto::Sha256 h;
+        h.update(std::span<const std::uint8_t>(chunk_id));
+        std::uint8_t b8[8];
+        be64(payload.size(), b8);
+        h.update(std::span<const std::uint8_t>(b8, 8));
+        const std::uint32_t n = static_cast<std::uint32_t>(name.size());
+        const std::uint8_t b4[4] = {static_cast<std::uint8_t>(n >> 24), static_cast<std::uint8_t>(n >> 16), static_cast<std::uint8_t>(n >> 8), static_cast<std::uint8_t>(n)};
+        h.update(std::span<const std::uint8_t>(b4, 4));
+        if (!name.empty()) h.update(std::span<const std::uint8_t>(reinterpret_cast<const std::uint8_t*>(name.data()), name.size()));
+        be64(nonce, b8);
+        h.update(std::span<const std::uint8_t>(b8, 8));
+        const bool ok = difficulty <= 0 || leading_zero_bits(h.finalize()) >= difficulty;
+        if (ok == valid) return nonce;
+    }
 }
 
 CliRun run_eph(std::uint32_t host, const std::vector<std::string>& args, std::int64_t timeout_ns) {
